@@ -84,21 +84,21 @@ theorem intra_loops_pinned : Gen.Naming.intraLoops = [
 /-- The other dictionaries of the SDK checks (regenerated from the source): which collections of the symbol table they
 walk and which naming function they apply — the one the generator of these declarations uses. -/
 theorem global_checks_pinned : Gen.Naming.globalChecks = [
-  ("cpp", [("constant", [⟨"constants", "cpp.constant_name", [], [], [], []⟩]),
-    ("function", [⟨"verification_functions", "cpp.function_name", [], [], [], []⟩, ⟨"constrained_primitives", "cpp.function_name", [118, 101, 114, 105, 102, 121, 95], [], [], []⟩])]),
-  ("csharp", [("constant", [⟨"constants", "csharp.property_name", [], [], [], []⟩]),
-    ("function", [⟨"verification_functions", "csharp.method_name", [], [], [], []⟩, ⟨"constrained_primitives", "csharp.class_name", [], [], [86, 101, 114, 105, 102, 121], []⟩])]),
-  ("golang", [("constant", [⟨"constants", "golang.constant_name", [], [], [], []⟩]),
-    ("function", [⟨"verification_functions", "golang.function_name", [], [], [], []⟩, ⟨"pattern_verification_functions", "golang.private_constant_name", [], [95, 114, 101], [], []⟩, ⟨"constrained_primitives", "golang.function_name", [118, 101, 114, 105, 102, 121, 95], [], [], []⟩, ⟨"enumerations", "golang.function_name", [118, 101, 114, 105, 102, 121, 95], [], [], []⟩, ⟨"concrete_classes", "golang.function_name", [118, 101, 114, 105, 102, 121, 95], [], [], []⟩]),
-    ("stringification", [⟨"enumerations", "golang.private_constant_name", [], [95, 102, 114, 111, 109, 95, 115, 116, 114, 105, 110, 103, 95, 109, 97, 112], [], []⟩]),
-    ("jsonization", [⟨"enumerations", "golang.function_name", [], [95, 102, 114, 111, 109, 95, 106, 115, 111, 110, 97, 98, 108, 101], [], []⟩, ⟨"classes", "golang.function_name", [], [95, 102, 114, 111, 109, 95, 106, 115, 111, 110, 97, 98, 108, 101], [], []⟩, ⟨"concrete_classes", "golang.private_function_name", [], [95, 116, 111, 95, 109, 97, 112], [], []⟩, ⟨"classes_with_descendants", "golang.private_function_name", [], [95, 102, 114, 111, 109, 95, 109, 97, 112], [], []⟩])]),
-  ("java", [("constant", [⟨"constants", "java.property_name", [], [], [], []⟩]),
-    ("function", [⟨"verification_functions", "java.method_name", [], [], [], []⟩, ⟨"pattern_verification_functions", "java.private_method_name", [99, 111, 110, 115, 116, 114, 117, 99, 116, 95], [], [], []⟩, ⟨"constrained_primitives", "java.class_name", [], [], [118, 101, 114, 105, 102, 121], []⟩])]),
-  ("python", [("constant", [⟨"constants", "python.constant_name", [], [], [], []⟩]),
-    ("function", [⟨"verification_functions", "python.function_name", [], [], [], []⟩, ⟨"constrained_primitives", "python.function_name", [118, 101, 114, 105, 102, 121, 95], [], [], []⟩]),
-    ("jsonization", [⟨"enumerations", "python.function_name", [], [95, 102, 114, 111, 109, 95, 106, 115, 111, 110, 97, 98, 108, 101], [], []⟩, ⟨"classes", "python.function_name", [], [95, 102, 114, 111, 109, 95, 106, 115, 111, 110, 97, 98, 108, 101], [], []⟩])]),
-  ("typescript", [("constant", [⟨"constants", "typescript.constant_name", [], [], [], []⟩]),
-    ("function", [⟨"verification_functions", "typescript.function_name", [], [], [], []⟩, ⟨"pattern_verification_functions", "typescript.function_name", [99, 111, 110, 115, 116, 114, 117, 99, 116, 95], [], [], []⟩, ⟨"constrained_primitives", "typescript.function_name", [118, 101, 114, 105, 102, 121, 95], [], [], []⟩])])
+  ("cpp", [("constants:constant_name", [⟨"constants", "cpp.constant_name", [], [], [], []⟩]),
+    ("verification_functions:function_name", [⟨"verification_functions", "cpp.function_name", [], [], [], []⟩, ⟨"constrained_primitives", "cpp.function_name", [118, 101, 114, 105, 102, 121, 95], [], [], []⟩])]),
+  ("csharp", [("constants:property_name", [⟨"constants", "csharp.property_name", [], [], [], []⟩]),
+    ("verification_functions:method_name", [⟨"verification_functions", "csharp.method_name", [], [], [], []⟩, ⟨"constrained_primitives", "csharp.class_name", [], [], [86, 101, 114, 105, 102, 121], []⟩])]),
+  ("golang", [("constants:constant_name", [⟨"constants", "golang.constant_name", [], [], [], []⟩]),
+    ("verification_functions:function_name", [⟨"verification_functions", "golang.function_name", [], [], [], []⟩, ⟨"pattern_verification_functions", "golang.private_constant_name", [], [95, 114, 101], [], []⟩, ⟨"constrained_primitives", "golang.function_name", [118, 101, 114, 105, 102, 121, 95], [], [], []⟩, ⟨"enumerations", "golang.function_name", [118, 101, 114, 105, 102, 121, 95], [], [], []⟩, ⟨"concrete_classes", "golang.function_name", [118, 101, 114, 105, 102, 121, 95], [], [], []⟩]),
+    ("enumerations:private_constant_name", [⟨"enumerations", "golang.private_constant_name", [], [95, 102, 114, 111, 109, 95, 115, 116, 114, 105, 110, 103, 95, 109, 97, 112], [], []⟩]),
+    ("enumerations:function_name", [⟨"enumerations", "golang.function_name", [], [95, 102, 114, 111, 109, 95, 106, 115, 111, 110, 97, 98, 108, 101], [], []⟩, ⟨"classes", "golang.function_name", [], [95, 102, 114, 111, 109, 95, 106, 115, 111, 110, 97, 98, 108, 101], [], []⟩, ⟨"concrete_classes", "golang.private_function_name", [], [95, 116, 111, 95, 109, 97, 112], [], []⟩, ⟨"classes_with_descendants", "golang.private_function_name", [], [95, 102, 114, 111, 109, 95, 109, 97, 112], [], []⟩])]),
+  ("java", [("constants:property_name", [⟨"constants", "java.property_name", [], [], [], []⟩]),
+    ("verification_functions:method_name", [⟨"verification_functions", "java.method_name", [], [], [], []⟩, ⟨"pattern_verification_functions", "java.private_method_name", [99, 111, 110, 115, 116, 114, 117, 99, 116, 95], [], [], []⟩, ⟨"constrained_primitives", "java.class_name", [], [], [118, 101, 114, 105, 102, 121], []⟩])]),
+  ("python", [("constants:constant_name", [⟨"constants", "python.constant_name", [], [], [], []⟩]),
+    ("verification_functions:function_name", [⟨"verification_functions", "python.function_name", [], [], [], []⟩, ⟨"constrained_primitives", "python.function_name", [118, 101, 114, 105, 102, 121, 95], [], [], []⟩]),
+    ("enumerations:function_name", [⟨"enumerations", "python.function_name", [], [95, 102, 114, 111, 109, 95, 106, 115, 111, 110, 97, 98, 108, 101], [], []⟩, ⟨"classes", "python.function_name", [], [95, 102, 114, 111, 109, 95, 106, 115, 111, 110, 97, 98, 108, 101], [], []⟩])]),
+  ("typescript", [("constants:constant_name", [⟨"constants", "typescript.constant_name", [], [], [], []⟩]),
+    ("verification_functions:function_name", [⟨"verification_functions", "typescript.function_name", [], [], [], []⟩, ⟨"pattern_verification_functions", "typescript.function_name", [99, 111, 110, 115, 116, 114, 117, 99, 116, 95], [], [], []⟩, ⟨"constrained_primitives", "typescript.function_name", [118, 101, 114, 105, 102, 121, 95], [], [], []⟩])])
 ] := by decide
 
 /-- Names derived from a member name inside the intra-structure loops (one dictionary each). -/
